@@ -134,6 +134,10 @@ func (tb *ATable) RegisterPropertyCallback(
 		case CB_ON_ITSELF, CB_ON_CELL:
 			set = &base.callbacks
 		}
+	case Table:
+		// A rendering wrapper embeds a Table and so promotes this method;
+		// when it names itself as the owner, it means the table it wraps.
+		return tb.RegisterPropertyCallback(tb, when, target, theNewCallback)
 	default:
 		return fmt.Errorf("do not know how to register callbacks for type %T", owner)
 	}
